@@ -212,6 +212,26 @@ func (x *g) primAlias() string {
 func (x *g) genStreamMsg(result bool, tag string) *spec.Attr {
 	var a *spec.Attr
 	c := x.r.Intn(11)
+	if !result && x.o.Profile == "stream" && x.chance(1, 4) {
+		// a streamed payload that IS a collection whose elements carry a validation (the server reads such messages
+		// into a slice or map, not into a struct)
+		ik := x.r.Pick(spec.Int, spec.Int64, spec.UInt32)
+		elem := &spec.Attr{Type: &spec.Type{Kind: ik}, Val: x.genVal(ik, nil)}
+		for i := 0; elem.Val.Empty() && i < 6; i++ {
+			elem.Val = x.genVal(ik, nil)
+		}
+		if elem.Val.Empty() {
+			elem.Val = &spec.Val{Min: fp(1)}
+		}
+		if x.chance(1, 2) {
+			a = &spec.Attr{Type: &spec.Type{Kind: spec.Array, Elem: elem}}
+			x.s.AddFeature(tag+"array", tag+"collection-of-validated-elements")
+		} else {
+			a = &spec.Attr{Type: &spec.Type{Kind: spec.Map, Key: &spec.Attr{Type: &spec.Type{Kind: spec.String}}, Elem: elem}}
+			x.s.AddFeature(tag+"map", tag+"collection-of-validated-elements")
+		}
+		return a
+	}
 	viewsOK := result && (!x.o.Runtime || x.o.StreamViews)
 	if rts := x.resultTypes(); (c >= 9 || x.o.Profile == "stream" && c >= 7) && viewsOK && rts != nil {
 		t := rts[x.r.Intn(len(rts))]
